@@ -251,6 +251,12 @@ def stepLine (s : St) (line : String) : St × Option String :=
         | _ => { s with onCad := r }
       (s, some "oncb")
     else if name = "dump" then (s, some (dumpChip s.sys.world.chip))
+    else if name = "rehome" then
+      -- the application moves the handle to other storage: in the model a handle is a value, nothing changes
+      match s.sys.handle with
+      | none => (s, some "!model op before create: rehome")
+      | some h => (s, some (s!"rehome rc=0 cb= spi=" ++ showHandle s.cached h s.sys.world.cache ++
+          s!" uf={s.sys.world.chip.underflow} of={s.sys.world.chip.overflow}"))
     else if name = "bk" then
       -- C19, backend half: `bk <lin|esp> <rr|rb|wr|wb> <reg> <n> <fail> <garbage> <hex>`; for reads <hex> is
       -- what the chip shifts out after the address byte, for writes the caller's data (n = its length)
